@@ -24,7 +24,7 @@ Step == /\ l <= Len(Rec) /\ Ev.ev \in {"query", "paginate"} /\ l' = l + 1
                      THEN (IF Ev.res = "ok" /\ Same(Ev.ast, Ev.rows, Result(data, Ev.ast)) THEN {} ELSE {<<"result", Ev.qid>>})
                      ELSE (IF Ev.res = "ok" /\ Flat(Ev.pages) = Result(data, Whole(Ev.ast)) THEN {} ELSE {<<"pages", Ev.qid>>})
                named == {<<o, Attribute(o)>> : o \in nb}
-           IN /\ nb = {} \/ PrintT(<<"MISMATCH", sid, Ev.qid, "expected", Result(data, IF Ev.ev = "query" THEN Ev.ast ELSE Whole(Ev.ast)),
+           IN /\ IF nb = {} THEN TRUE ELSE PrintT(<<"MISMATCH", sid, Ev.qid, "expected", Result(data, IF Ev.ev = "query" THEN Ev.ast ELSE Whole(Ev.ast)),
                                      "observed", IF Ev.ev = "query" THEN Ev.rows ELSE Flat(Ev.pages), Ev.res>>)
               /\ bad' = bad \cup {<<"UNEXPLAINED", x[1], x[2]>> : x \in {y \in named : y[2] \notin KNOWN}}
               /\ devs' = devs \cup {x[2] : x \in {y \in named : y[2] \in KNOWN}}
